@@ -319,5 +319,49 @@ def check(ctx: Ctx) -> list[RuleResult]:
             r6.ok({"test": norm(t.ast)[:70], "dominated_by": norm(restore[0][0].ast)[:60]})
         else:
             r6.fail(f"{gst.short}:discovery-test-before-restore", gst.loc(t.ast), "the test that guards initiate_discovery() reads config.disable_discovery before it has been restored from its temporary True: the pollers of everything created during start-up (schema, cached packets, early traffic) are never started")
+    # what discovery is started *for* must be read when it starts: an argument that is a local snapshot taken before a suspension
+    # point misses every system/device created while start() was waiting (self.systems builds a new list on every read)
+    for cnode in calls:
+        for c in ast.walk(cnode.ast):
+            if not (isinstance(c, ast.Call) and norm(c.func) == "initiate_discovery"):
+                continue
+            for arg in list(c.args) + [k.value for k in c.keywords]:
+                r6.instances += 1
+                r6.nontrivial += 1
+                if not isinstance(arg, ast.Name):
+                    r6.ok({"argument": norm(arg), "read": "at the call"})
+                    continue
+                defs = [x for x in cfgs.nodes if x.ast is not None and x.kind == "stmt" and isinstance(x.ast, (ast.Assign, ast.AnnAssign)) and any(isinstance(nm, ast.Name) and nm.id == arg.id and isinstance(nm.ctx, ast.Store) for nm in ast.walk(x.ast))]
+                stale = None
+
+                def _fresh_object(d_) -> bool:
+                    """the snapshot's source builds a new object on every read (a property / a call), so the local cannot follow
+                    later additions; a plain attribute holding a list is an alias of the live container"""
+                    pairs = []
+                    a_ = d_.ast
+                    tg = a_.targets[0] if isinstance(a_, ast.Assign) else a_.target
+                    if isinstance(tg, ast.Tuple) and isinstance(a_.value, ast.Tuple) and len(tg.elts) == len(a_.value.elts):
+                        pairs = list(zip(tg.elts, a_.value.elts))
+                    else:
+                        pairs = [(tg, a_.value)]
+                    for t_, v_ in pairs:
+                        if isinstance(t_, ast.Name) and t_.id == arg.id:
+                            if isinstance(v_, ast.Attribute) and isinstance(v_.value, ast.Name) and v_.value.id == "self" and gst.cls is not None:
+                                return any(repo.funcs.get(f"{k.fullname}.{v_.attr}") is not None and repo.funcs[f"{k.fullname}.{v_.attr}"].is_property for k in gst.cls.mro)
+                            return not isinstance(v_, (ast.Name, ast.Attribute))
+                    return True
+
+                for d in defs:
+                    if not _fresh_object(d):
+                        continue
+                    after_def = cfgs.reachable_from(d.id)
+                    for y in cfgs.nodes:
+                        if y.id in after_def and y.id != d.id and y.ast is not None and y.kind == "stmt" and any(isinstance(a, ast.Await) for a in ast.walk(y.ast)) and not isinstance(y.ast, (ast.FunctionDef, ast.AsyncFunctionDef)) and cnode.id in cfgs.reachable_from(y.id) and y.id != cnode.id:
+                            stale = (d, y)
+                if stale:
+                    d, y = stale
+                    r6.fail(f"{gst.short}:discovery-on-stale-snapshot:{arg.id}", gst.loc(d.ast), f"initiate_discovery() is given `{arg.id}`, bound at line {d.line} before the await at line {y.line}: systems/devices created while start() was suspended (the controller heard during transport start-up) are not in it and never get their discovery pollers")
+                else:
+                    r6.ok({"argument": arg.id, "read": "after the last suspension point before the call"})
     out.append(r6)
     return out
